@@ -18,6 +18,7 @@ import (
 
 	parse "github.com/tdewolff/parse/v2"
 	"github.com/tdewolff/parse/v2/buffer"
+	"github.com/tdewolff/parse/v2/css"
 )
 
 type cursor interface {
@@ -337,6 +338,11 @@ func c12Run(c *engine.Ctx, in []byte, args map[string]string) {
 				}
 			}()
 		}
+		// "io.EOF exactly from the end onwards": also for look-aheads that land beyond the terminator
+		for i := L - s.pos + 1; i <= L-s.pos+3; i++ {
+			ge := z.PeekErr(i)
+			obs("PeekErr", ge == wantErr(i), "PeekErr(%d)=%v want %v (beyond the end)", i, ge, wantErr(i))
+		}
 		// observers must not have changed the state
 		checkKey(b, s, h, "after observers")
 		c.Count("transitions", int64(nobs))
@@ -439,8 +445,43 @@ func c12Run(c *engine.Ctx, in []byte, args map[string]string) {
 	c.Count("max:states_per_input", int64(len(queue)))
 }
 
+// c12Borrow: entry points that build an Input over the caller's bytes themselves (the caller cannot call Restore)
+// must leave the caller's array as they found it, including the byte behind the data that is borrowed for the terminator.
+var c12Borrowers = []string{"Position", "NewError", "css.IsIdent", "css.IsURLUnquoted"}
+
+func c12Borrow(c *engine.Ctx, in []byte, args map[string]string) {
+	for _, spare := range []string{"\x7fZ", "\x00\x00", "a"} {
+		for off := -1; off <= len(in)+1; off++ {
+			for _, who := range c12Borrowers {
+				if off != 0 && (who == "css.IsIdent" || who == "css.IsURLUnquoted") {
+					continue
+				}
+				arr := append(append(make([]byte, 0, len(in)+len(spare)), in...), spare...)
+				before := append([]byte{}, arr...)
+				data := arr[:len(in)]
+				switch who {
+				case "Position":
+					parse.Position(buffer.NewReader(data), off)
+				case "NewError":
+					_ = parse.NewError(buffer.NewReader(data), off, "message").Error()
+				case "css.IsIdent":
+					css.IsIdent(data)
+				case "css.IsURLUnquoted":
+					css.IsURLUnquoted(data)
+				}
+				c.Count("transitions", 1)
+				if !bytes.Equal(arr, before) {
+					c.Fail("caller-array-modified", fmt.Sprintf("%s on %q (offset %d) with %q behind it in the same array leaves the array as %q", who, in, off, spare, arr))
+					return
+				}
+			}
+		}
+	}
+}
+
 func c12Setup(c *engine.Ctx) {
 	c.Register(&engine.Space{Name: "cursor", Run: c12Run})
+	c.Register(&engine.Space{Name: "borrow", Run: c12Borrow})
 }
 
 var c12Atoms = engine.Atoms("a", "\x00", "\x80", "\xa9", "\xc3", "\xe2", "\xf0", "é", "\u2028", "😀")
@@ -470,6 +511,8 @@ func c12Work(c *engine.Ctx) {
 				}
 			}
 		}
+		c.Exec(c.SpaceByName("borrow"), in, nil)
+		c.Count("exec", 1)
 		if len(idx) == maxLen && idx[0] == 7 && idx[maxLen-1] == 5 {
 			c.Sample(fmt.Sprintf("input %q: fix-point over all (start,pos) states × 11 constructors × {Input,Lexer}", in))
 		}
@@ -492,7 +535,7 @@ func c12Finish(c *engine.Ctx, cov map[string]interface{}) string {
 func init() {
 	register(&engine.Check{
 		ID: "C12", Level: "model_checking",
-		Rule:        "every byte string of ≤k atoms over {a,NUL,0x80,0xA9,0xC3,0xE2,0xF0,é,U+2028,😀} × 11 constructors × {parse.Input, buffer.Lexer}; per case a breadth-first search to a fix-point over all reachable (start,pos) states of the real object (successor = fresh object + shortest history + one operation), every observer and mutator compared with a reference cursor; distinct_nontrivial = canonical atom sequences of ≥2 atoms on non-failing constructors",
+		Rule:        "every byte string of ≤k atoms over {a,NUL,0x80,0xA9,0xC3,0xE2,0xF0,é,U+2028,😀} × 11 constructors × {parse.Input, buffer.Lexer}; per case a breadth-first search to a fix-point over all reachable (start,pos) states of the real object (successor = fresh object + shortest history + one operation), every observer and mutator compared with a reference cursor (PeekErr also up to 3 bytes beyond the end); per input also every entry point that builds an Input over caller bytes itself (Position and NewError at every offset in [-1,len+1], css.IsIdent, css.IsURLUnquoted) with three kinds of bytes behind the data in the same array, which must be unchanged afterwards; distinct_nontrivial = canonical atom sequences of ≥2 atoms on non-failing constructors",
 		Assumptions: []string{"operations respect the documented contract: position never moved past the terminator or before start", "private fields start,pos,buf,err are read by reflection to show that equal model states mean equal implementation states (justifies the fix-point)"},
 		Setup:       c12Setup, Work: c12Work, Finish: c12Finish,
 	})
